@@ -241,7 +241,9 @@ def run(cx):
     nodeset_law(cx, results)
     rec_law(cx, results)
     fastpath_law(cx, cx.n(25, 200))
+    mustwhen_law(cx, cx.n(60, 600))
     witnesses(cx)
+    set_ops(cx)
 
 
 NOT_MIRRORED = ("F57", "F58", "F60")
@@ -434,6 +436,120 @@ def fastpath_law(cx, ntrees):
                          "generic": unhex(l.split()[4]).decode(), "generic_result": a})
     nodeset_law(cx, results)
     rec_law(cx, results)
+
+
+def yang_dq(x):
+    return '"' + x.replace("\\", "\\\\").replace('"', '\\"') + '"'
+
+
+def mustwhen_law(cx, nvar):
+    """(L) the must/when decision of lyd_validate_all is the boolean value of the same expression evaluated by lyd_eval_xpath3 at the same node."""
+    for vi in range(nvar):
+        rng = cx.sub_rng("must%d" % vi)
+        xml, vals = X.gen_tree(rng, X.SCHEMA1, density=0.9, maxinst=3)
+        g = X.Gen(rng, X.SCHEMA1, vals, always_prefix=True)
+        where = rng.choice(["c", "c", "l1", "s"])
+        sch = [n for n in X.SCHEMA1 if n["name"] == "c"]
+        cur = sch if where == "c" else sch + [k for k in sch[0]["kids"] if k["name"] == ("l1" if where == "l1" else "s") and k["mod"] == X.A]
+        e = g.expr("bool", rng.choice([1, 2, 2]), cur)
+        if X.size(e) > 40: continue
+        txt = X.render(e)
+        if where == "c":
+            ya = X.YANG_A.replace("container c {", "container c { must %s;" % yang_dq(txt), 1)
+        elif where == "l1":
+            ya = X.YANG_A.replace("list l1 { key k;", "list l1 { key k; must %s;" % yang_dq(txt), 1)
+        else:
+            ya = X.YANG_A.replace("leaf s { type string; }", "leaf s { when %s; type string; }" % yang_dq(txt), 1)
+        assert ya != X.YANG_A
+        l0 = ["s %s schema %s %s" % (COMP, hexs(ya), hexs(X.YANG_B)), "t %s load x %s" % (COMP, hexs(xml))]
+        r0 = cx.run_impl(HARNESS, l0, component=COMP)
+        if r0.get("s", ["err"])[0] != "ok" or r0.get("t", ["err"])[0] != "ok":
+            cx.dist["mustwhen:schema-or-tree-rejected"] += 1
+            continue
+        nodes = parse_dump(r0["t"][1])
+        if where == "c": ctxs = [n["i"] for n in nodes if n["name"] == "c" and n["d"] == 0]
+        elif where == "l1": ctxs = [n["i"] for n in nodes if n["name"] == "l1" and n["mod"] == X.A and n["d"] == 1]
+        else: ctxs = [n["i"] for n in nodes if n["name"] == "s" and n["mod"] == X.A and n["d"] == 1]
+        if not ctxs:
+            cx.dist["mustwhen:no-instance"] += 1
+            continue
+        lines = l0 + ["e%d %s evalb %d %s -" % (c, COMP, c, hexs(txt)) for c in ctxs] + ["v %s validate" % COMP]
+        r = cx.run_impl(HARNESS, lines, component=COMP)
+        bs = [r.get("e%d" % c, ["err"]) for c in ctxs]
+        v = r.get("v", ["err"])
+        if any(b[:2] != ["ok", "bool"] for b in bs) or v[0] != "ok" or v[1:] == ["invalid", "other"]:
+            cx.dist["mustwhen:skipped:%s" % " ".join(v[:3])] += 1
+            continue
+        want = ["ok", "valid"] if all(b[2] == "1" for b in bs) else ["ok", "invalid", "when" if where == "s" else "must"]
+        cx.count(("mustwhen", where, txt, xml), True, "mustwhen:%s:%s" % (where, " ".join(v[1:])))
+        if v != want:
+            cx.fail(COMP, "must/when decision of lyd_validate_all differs from the boolean value of the same expression",
+                    {"where": where, "expr": txt, "xml": xml, "evalb": bs, "validate": v})
+
+
+def keys_tok(l):
+    return ",".join(str(x) for x in l) if l else "-"
+
+
+def set_ops(cx):
+    """(K) wb_xpath: set_sort / set_sorted_merge on synthetic sets against LyModel.XPath.Set; (L) on the implementation's own replies:
+    the sort returns a sorted permutation, the merge returns the sorted duplicate-free union and stays inside the allocation."""
+    rng = cx.sub_rng("setops")
+    cases = []
+    # exhaustive: every sequence over {0..3} up to length 4 and every permutation of up to 6 distinct keys
+    for n in range(0, 5):
+        for t in itertools.product(range(4), repeat=n):
+            cases.append("sortk " + keys_tok(t))
+    for n in range(2, cx.n(6, 8)):
+        for t in itertools.permutations(range(n)):
+            cases.append("sortk " + keys_tok(t))
+    for _ in range(cx.n(1500, 20000)):
+        n = rng.choice([2, 3, 4, 5, 8, 13, 21, 40])
+        l = rng.sample(range(3 * n), n)
+        if rng.random() < 0.3: l.sort()
+        if rng.random() < 0.2: l.sort(reverse=True)
+        if rng.random() < 0.15 and n > 2: l[rng.randrange(n)] = l[rng.randrange(n)]
+        cases.append("sortk " + keys_tok(l))
+    for _ in range(cx.n(800, 8000)):
+        n = rng.randrange(0, 9)
+        items = ["%d:%d:%s" % (rng.randrange(1, 5), rng.randrange(0, 4), rng.choice("eet")) for _ in range(n)]
+        cases.append("sort " + (",".join(items) if items else "-"))
+    # merge: all pairs of subsets of {0..5} exhaustively, random larger ones
+    m = cx.n(6, 7)
+    subsets = [[k for k in range(m) if b >> k & 1] for b in range(1 << m)]
+    for a in subsets:
+        for b in subsets:
+            cases.append("mergek %s %s" % (keys_tok(a), keys_tok(b)))
+    for _ in range(cx.n(3000, 40000)):
+        u = rng.choice([8, 12, 20, 40, 80])
+        a = sorted(rng.sample(range(u), rng.randrange(0, u // 2 + 1)))
+        if rng.random() < 0.5:
+            b = sorted(rng.sample(range(u), rng.randrange(0, u // 2 + 1)))
+        else:       # heavy overlap, runs of duplicates after insertions
+            b = sorted(set(rng.sample(a, rng.randrange(0, len(a) + 1)) + rng.sample(range(u), rng.randrange(0, 4))))
+        cases.append("mergek %s %s" % (keys_tok(a), keys_tok(b)))
+    cases = list(dict.fromkeys(cases))
+    lines = ["%d %s %s" % (i, COMP, c) for i, c in enumerate(cases)]
+
+    def kind(l, a):
+        return "set:%s:%s" % (l.split()[2], a[0] if a[0] == "ok" else " ".join(a[:2]))
+    ri, rm = cx.differential(COMP, lines, "wb_xpath", kind=kind)
+    cx.exhaustive = True
+    for l in lines:
+        t = l.split()
+        a = ri.get(t[0])
+        if not a or a[0] != "ok": continue
+        if t[2] == "sortk":
+            inp = [int(x) for x in t[3].split(",")] if t[3] != "-" else []
+            out = [int(x) for x in a[2].split(",")] if a[2] != "-" else []
+            if sorted(inp) != out:
+                cx.fail(COMP, "set_sort does not return the sorted permutation of its input", {"input": inp, "output": out})
+        elif t[2] == "mergek":
+            x = [int(v) for v in t[3].split(",")] if t[3] != "-" else []
+            y = [int(v) for v in t[4].split(",")] if t[4] != "-" else []
+            out = [int(v) for v in a[1].split(",")] if a[1] != "-" else []
+            if out != sorted(set(x) | set(y)) or a[2] != "1":
+                cx.fail(COMP, "set_sorted_merge does not return the sorted duplicate-free union within its allocation", {"trg": x, "src": y, "output": out, "in_bounds": a[2]})
 
 
 def cursor_of(nodes, c):
